@@ -3,7 +3,7 @@ import dyncheck
 
 CHECKS = {}
 for _p in dyncheck.PLANS:
-    if _p != "C12":
+    if _p not in ("C12", "C13"):
         CHECKS[_p] = dyncheck.run
 import buildcheck
 
@@ -41,3 +41,4 @@ def merged(*runners):
 
 CHECKS["C17"] = merged(dyncheck.run, primcheck.run)
 CHECKS["C12"] = merged(lifecheck.run, dyncheck.run)
+CHECKS["C13"] = merged(lifecheck.run, dyncheck.run)
